@@ -1215,7 +1215,17 @@ func (w *vWorld) op(ws []string) (string, bool) {
 		if !ok {
 			return "", false
 		}
-		globals.hub.topicsStateForUser(uid, len(ws) > 2 && ws[2] == "susp")
+		// changeUserState (user.go:558-585): the account's state is stored, then the hub is told (the eviction of the account's
+		// sessions is not reproduced: a `drop` line does that)
+		st := types.StateOK
+		if len(ws) > 2 && ws[2] == "susp" {
+			st = types.StateSuspended
+		}
+		if err := store.Users.UpdateState(uid, st); err != nil {
+			return "err", true
+		}
+		w.ad.Calls = nil
+		globals.hub.topicsStateForUser(uid, st == types.StateSuspended)
 		w.pump()
 	case "restart":
 		// crash + restart: the database keeps what it had when the process died; all memory state is lost
